@@ -211,6 +211,21 @@ func (fp *FakePeer) PushPull(join bool, nodes []WPushNodeState, user []byte) (fr
 	return
 }
 
+// PushPullBlocking is PushPull for use from helper goroutines: it never calls
+// synctest.Wait (only one goroutine may), it just reads until V closes.
+func (fp *FakePeer) PushPullBlocking(join bool, nodes []WPushNodeState, user []byte) {
+	ce, err := fp.Dial()
+	if err != nil {
+		return
+	}
+	defer ce.Close()
+	r := fp.rig
+	var frame []byte
+	r.C.Net.Rand(func(rng *rand.Rand) { frame = BuildStreamMsg(r.SCfg, BuildPushPull(join, nodes, user), rng) })
+	_, _ = ce.Write(frame)
+	_ = ReadAllUntil(ce, 5*time.Second)
+}
+
 // drain returns whatever is readable right now without blocking.
 func drain(ce *ConnEnd) []byte {
 	_ = ce.SetReadDeadline(time.Now().Add(time.Nanosecond))
